@@ -565,7 +565,7 @@ def run_history(h, st=None):
         want = _fresh_response(i)
         if got != want:
             out.append((
-                "history-dependent/request=%d/after=%s" % (i, "-".join(str(x) for x in sorted(set(h[:step]))) or "none"),
+                "history-dependent/request=%d" % i,
                 "history %s: response to menu request %d at step %d differs from a fresh schema's: %s vs %s" % (h, i, step, got[:300], want[:300]),
             ))
             break
